@@ -61,7 +61,8 @@ CHECKS = {
         text="For the PuLP model, the CPLEX model (optimisations on/off, paper variant) and the selector with the CPLEX API present / "
              "absent, on every path (arcs of the graph of elements, optimum picked by the stand-in) the returned ranking is proved "
              "minimal against all rankings with ties for all valid schemes on the path (n<=3 + Condorcet strata, n=4 samples); the "
-             "all-optima mode returns exactly the minimisers; the recorded rows admit exactly the rankings with ties (n<=4).",
+             "all-optima mode returns exactly the minimisers; the recorded rows admit exactly the rankings with ties (n<=4); the "
+             "position-only models are also run on symbolic datasets (level vectors as z3 ints: all datasets with n<=3, m<=2 at once).",
         design="4/C05",
         note=TB + "; ILP solver stand-in contract: returns an optimal solution of the model it was given (CPLEX is not installed; "
                   "PuLP+CBC is used in replays)"),
@@ -71,14 +72,14 @@ CHECKS = {
         text="The pivot comparison is proved equal to the cheapest-placement rule for all position vectors (m<=3, thorough 4) and all "
              "valid schemes; end to end, for every enumerated dataset, every pivot sequence and every region of schemes, each element "
              "sits relative to its step's pivot as the definition says and coherent preferences force the result; a reuse-after-"
-             "in-place-mutation history is included.",
+             "in-place-mutation history is included; both checks also on symbolic datasets ((2,2),(3,1),(3,2)).",
         design="4/C11"),
     "C13": dict(
         technique="merge-mode bounded symbolic execution of _fill_dicts_copeland on a symbolic cost table + fork-mode execution of "
                   "CopelandMethod with symbolic scheme (sort order decided by forks)",
         text="Scores and victory/equality/defeat counts equal the definition for any mirror-consistent table (n<=4, thorough 5); end "
              "to end the ranking is by decreasing definition score, tied iff equal, and the feature dictionaries hold the definition's "
-             "numbers, for all valid schemes on each path.",
+             "numbers, for all valid schemes on each path; also on symbolic datasets ((2,2),(3,1),(3,2),(2,3); thorough (3,3),(4,1)).",
         design="4/C13"),
     "C19": dict(
         technique="fork-mode symbolic execution of ScoringScheme's constructor, __mul__, equivalence tests and nickname on fully "
@@ -93,7 +94,8 @@ CHECKS = {
         text="On every path of the partition code the solver refutes 'no optimal consensus is consistent with the partition' (min as "
              "ite-chains over all rankings with ties, n<=4); ParCons with bounds above/below component sizes, CPLEX stand-in/absent: "
              "consensus consistent with the reported weak partitioning = library partition, flag exactly 'nothing delegated', flagged "
-             "results proved optimal; multi-component strata up to n=7.",
+             "results proved optimal; multi-component strata up to n=7; the partition is also checked on symbolic datasets (all datasets "
+             "with (n,m) in {(2,2),(3,1),(3,2),(2,3)}, thorough (3,3),(4,1), and all valid schemes in one exploration each).",
         design="4/C06",
         note=TB + "; ILP stand-in contract; real igraph on concrete graphs"),
     "C07": dict(
@@ -101,7 +103,8 @@ CHECKS = {
                   "z3 refutes 'a ranking not strictly consistent with the partition is optimal'; exhaustive pairs for consistent_with",
         text="Per path: partition of the universe, merge of consecutive ParCons groups, and no inconsistent ranking can be optimal for "
              "any valid scheme on the path (n<=4 + Condorcet strata); consistent_with is compared with the stated relation on every "
-             "(partition, consensus) pair over <=3 (thorough 4) elements (declared enumeration).",
+             "(partition, consensus) pair over <=3 (thorough 4) elements (declared enumeration); the partition part also on symbolic "
+             "datasets (sizes as C06) and on aggregate / edit-in-place / aggregate-again histories.",
         design="4/C07"),
     "C10": dict(
         technique="fork-mode symbolic execution of PickAPerm with a symbolic scheme (scheme class decided by the library's own test); "
